@@ -776,6 +776,12 @@ func msgEq(m Msg, e ExpMsg) bool {
 		return false
 	}
 	if e.Done {
+		if e.Sched {
+			// The scheduler's own errors: the cause is the model's, the
+			// status code must match, the message must state something;
+			// its wording is free.
+			return m.Code == e.Code && m.Token == "" && m.Text != ""
+		}
 		return m.Code == e.Code && m.Text == e.Text && m.Token == e.Token
 	}
 	return true
